@@ -610,11 +610,12 @@ class Node(object):
                         index = sib_index
                         break
             else:
-                if index <= len(self._children) - 1:
+                if index < len(self._children) - 1:
                     self.children[index], self.children[index + 1] = (
                         self.children[index + 1],
                         self.children[index],
                     )
+                    index = index + 1
         elif direction == Shift.LEFT:
             if sib:
                 for sib_index in range(index - 1, -1, -1):
@@ -631,6 +632,7 @@ class Node(object):
                         self.children[index - 1],
                         self.children[index],
                     )
+                    index = index - 1
         else:
             msg = "Expected direction to be either Shift.RIGHT or Shift.LEFT"
             raise ValueError(msg)
